@@ -224,6 +224,11 @@ func lastHeadOf(out string) (int64, int64, bool) {
 	return t, o, true
 }
 
+func (g *gen) known(t int64) bool {
+	ti := g.h.terms[t]
+	return ti != nil && !ti.stale
+}
+
 // sync: the plans made for the leaders of an earlier incarnation of the node are void
 func (g *gen) sync() {
 	if g.inc != g.h.incarnation {
@@ -241,7 +246,7 @@ func (g *gen) newTerm(t int64) {
 	}
 	if len(g.h.outs) > n {
 		if ht, ho, ok := lastHeadOf(g.h.outs[len(g.h.outs)-1]); ok {
-			if _, known := g.h.terms[t]; !known {
+			if !g.known(t) {
 				g.electLeader(t, ht, ho)
 			}
 		}
@@ -344,7 +349,7 @@ func (g *gen) afterRace(n int) {
 		switch f[0] {
 		case "NT":
 			t := atoi(f[1])
-			if _, known := h.terms[t]; !known {
+			if !g.known(t) {
 				g.electLeader(t, ht, ho)
 			}
 		case "TR":
@@ -540,7 +545,7 @@ func (g *gen) step() {
 				h.doNewTermRacingAppend(t, s.sid, e)
 				for _, out := range h.outs[n:] {
 					if ht, ho, ok := lastHeadOf(out); ok {
-						if _, known := h.terms[t]; !known {
+						if !g.known(t) {
 							g.electLeader(t, ht, ho)
 						}
 					}
@@ -643,7 +648,7 @@ func (g *gen) step() {
 				h.doNewTermRacingWrite(t, g.fresh())
 				for _, out := range h.outs[n:] {
 					if ht, ho, ok := lastHeadOf(out); ok {
-						if _, known := h.terms[t]; !known {
+						if !g.known(t) {
 							g.electLeader(t, ht, ho)
 						}
 					}
